@@ -45,6 +45,13 @@ def enumerated(tier, seed):
     for i, G in graphs:
         for root in G.nodes():
             cases.append({"kind": "identity", "name": f"atlas{i}", "edges": [list(e) for e in G.edges()], "root": root})
+        if G.number_of_nodes() <= 5:
+            # the same motif with ids beyond the small-int cache, edges listed (larger, smaller), focal id passed
+            # as a separately created equal object
+            f = lambda v: 2000 - 13 * v
+            for root in G.nodes():
+                cases.append({"kind": "identity", "name": f"atlas{i}-big", "edges": [[f(a), f(b)] for a, b in G.edges()],
+                              "root": f(root)})
     return cases
 
 
@@ -72,11 +79,13 @@ def motif(draw, idx):
         edges = [[draw(st.integers(0, i - 1)), i] for i in range(1, n)]
         extra = [list(p) for p in combinations(range(n), 2) if list(p) not in edges]
         edges += draw(st.lists(st.sampled_from(extra), max_size=min(4, len(extra)), unique_by=tuple)) if extra else []
-    relabel = draw(st.sampled_from(["id", "offset", "perm"]))
+    relabel = draw(st.sampled_from(["id", "offset", "perm", "big"]))
     n = max(max(e) for e in edges) + 1
     lab = list(range(n))
     if relabel == "offset":
         lab = [7 * i + 3 for i in range(n)]
+    elif relabel == "big":
+        lab = [1000 + 17 * i for i in range(n)]  # ids outside CPython's small-int cache
     elif relabel == "perm":
         lab = list(draw(st.permutations(lab)))
     return {"name": f"m{idx}-{kind}", "edges": [[lab[a], lab[b]] for a, b in edges]}
@@ -133,7 +142,7 @@ def check(case):
         edges, root = case["edges"], case["root"]
         nodes = sorted({v for e in edges for v in e})
         G = graph_of(case["name"], edges, {v: Poly.var(f"u{v}") for v in nodes})
-        got = call("automated_equation", AutomatedEquation().automated_equation, G, Poly.var("p"), root)
+        got = call("automated_equation", AutomatedEquation().automated_equation, G, Poly.var("p"), int(str(root)))
         want = oracle_poly(edges, root)
         if not isinstance(got, Poly):
             got = Poly.const(Fraction(got))
@@ -155,7 +164,7 @@ def check(case):
         env["p"] = phi
         if case.get("plain"):
             G = graph_of(mo["name"], mo["edges"], {v: (float(x) if x else (0 if v % 2 else 0.0)) for v, x in us.items()})
-            got = call("automated_equation", AE.automated_equation, G, float(phi), stp["root"])
+            got = call("automated_equation", AE.automated_equation, G, float(phi), int(str(stp["root"])))
             wv = oracle_poly(mo["edges"], stp["root"]).subs(env)
             if abs(float(got) - float(wv)) > 1e-9:
                 raise Violation("history-dependence", f"step {si} of {len(case['steps'])} on a shared evaluator (plain float arguments): "
@@ -164,7 +173,7 @@ def check(case):
             seen.setdefault(stp["m"], set()).add(phi)
             continue
         G = graph_of(mo["name"], mo["edges"], {v: Poly.const(x) for v, x in us.items()})
-        got = call("automated_equation", AE.automated_equation, G, Poly.const(phi), stp["root"])
+        got = call("automated_equation", AE.automated_equation, G, Poly.const(phi), int(str(stp["root"])))
         if isinstance(got, Poly):
             if not got.is_const():
                 raise Violation("history-nonconstant", f"step {si}: result still contains variables")
